@@ -12,6 +12,8 @@ CONSTANTS KemSet, KdfSet, AeadSet, ModeSet,
           Vals,          \* "small": concrete strings over {00, 61} (collision search)
                          \* "leaf" : named leaves of assorted lengths (replay)
           Perturb,       \* set of perturbation kinds offered to the receiver ("none" = matching)
+          Twin,          \* TRUE: a second sender "t" with identical parameters and randomness may set up
+          BadPkR,        \* TRUE: X25519 senders are also offered small-order (and other raw) recipient keys
           Impost,        \* TRUE: after the honest sender, an impostor sender "i" may set up too (C08)
           Shape,         \* "all": every value combination; "one": one combination per (suite, mode)
           Emit,          \* TRUE: print every generated transition (and the key-derivation prologue)
@@ -33,6 +35,13 @@ Prologue(kem) ==
          pre |-> NoState, post |-> NoState, untouched |-> FALSE]]
 
 (****************************** values *************************************)
+\* 32-byte strings that are not of small order: u = 2, u = 9 (the base point), a non-canonical u = p + 2,
+\* all-ones (u = 2^255 - 1 - ... with bit 255 set), and u = 2^255 - 20 = p - 1 ... is small order, so not here
+OtherEncodings == {[i \in 1..32 |-> IF i = 1 THEN 2 ELSE 0], [i \in 1..32 |-> IF i = 1 THEN 9 ELSE 0],
+                   [i \in 1..32 |-> IF i = 1 THEN 239 ELSE IF i = 32 THEN 127 ELSE 255],
+                   [i \in 1..32 |-> IF i = 1 THEN 3 ELSE IF i = 32 THEN 128 ELSE 0],
+                   [i \in 1..32 |-> 255]}
+
 SmallStrings == {<<>>, Lit(<<0>>), Lit(<<97>>), Lit(<<97, 0>>), Lit(<<0, 97>>), Lit(<<97, 97>>)}
 LeafStrings(n) == {<<>>, Leaf(n \o "a", 1), Leaf(n \o "b", 32), Leaf(n \o "c", 65)}
 InfoVals  == IF Vals = "small" THEN SmallStrings ELSE LeafStrings("info")
@@ -66,30 +75,44 @@ Matching(p) ==
      pkS |-> p.pkS]
 
 \* single-component perturbations (and the listed boundary shifts) of the matching receiver
-Variants(p) ==
+Bits(v) == 0..(8 * BLen(v) - 1)
+Variant(p, k) ==
     LET m == Matching(p) kem == p.suite[1] IN
-    [none   |-> {m},
-     info   |-> {[m EXCEPT !.info = v] : v \in InfoVals \ {p.info}},
-     psk    |-> IF p.mode \in PskModes
-                THEN {[m EXCEPT !.psk = v] : v \in (PskVals \ {p.psk, <<>>})} ELSE {},
-     pskid  |-> IF p.mode \in PskModes
-                THEN {[m EXCEPT !.pskId = v] : v \in (PskIdVals \ {p.pskId, <<>>})} ELSE {},
-     \* another mode with the same PSK data (identity key supplied where the mode needs one)
-     mode   |-> {[m EXCEPT !.mode = mo,
-                           !.pkS = IF mo \in AuthModes THEN KP("S1", kem).pk ELSE <<>>]
-                 : mo \in Modes \ {p.mode}},
-     kdf    |-> {[m EXCEPT !.suite = <<kem, k, p.suite[3]>>] : k \in Kdfs \ {p.suite[2]}},
-     aead   |-> {[m EXCEPT !.suite = <<kem, p.suite[2], a>>] : a \in Aeads \ {p.suite[3]}},
-     skr    |-> {[m EXCEPT !.skR = KP("R2", kem).sk]},
-     enc    |-> {[m EXCEPT !.enc = KP("E2", kem).pk]},
-     pks    |-> IF p.mode \in AuthModes THEN {[m EXCEPT !.pkS = KP("S2", kem).pk]} ELSE {},
-     \* bytes moved between info and psk_id, concatenation unchanged
-     shift  |-> IF p.mode \in PskModes
-                THEN {[m EXCEPT !.info = v, !.pskId = w] : v \in InfoVals, w \in PskIdVals \ {<<>>}}
-                     \cap {x \in [suite : {m.suite}, mode : {m.mode}, skR : {m.skR}, enc : {m.enc},
-                                  info : InfoVals, psk : {m.psk}, pskId : PskIdVals, pkS : {m.pkS}] :
-                           x.info # m.info /\ Cat(x.info, x.pskId) = Cat(m.info, m.pskId)}
-                ELSE {}]
+    CASE k = "none"  -> {m}
+      [] k = "info"  -> {[m EXCEPT !.info = v] : v \in InfoVals \ {p.info}}
+      [] k = "psk"   -> IF p.mode \in PskModes
+                        THEN {[m EXCEPT !.psk = v] : v \in (PskVals \ {p.psk, <<>>})} ELSE {}
+      [] k = "pskid" -> IF p.mode \in PskModes
+                        THEN {[m EXCEPT !.pskId = v] : v \in (PskIdVals \ {p.pskId, <<>>})} ELSE {}
+      \* another mode with the same PSK data (identity key supplied where the mode needs one)
+      [] k = "mode"  -> {[m EXCEPT !.mode = mo,
+                                   !.pkS = IF mo \in AuthModes THEN KP("S1", kem).pk ELSE <<>>]
+                         : mo \in Modes \ {p.mode}}
+      [] k = "kdf"   -> {[m EXCEPT !.suite = <<kem, kd, p.suite[3]>>] : kd \in Kdfs \ {p.suite[2]}}
+      [] k = "aead"  -> {[m EXCEPT !.suite = <<kem, p.suite[2], a>>] : a \in Aeads \ {p.suite[3]}}
+      [] k = "skr"   -> {[m EXCEPT !.skR = KP("R2", kem).sk]}
+      [] k = "enc"   -> {[m EXCEPT !.enc = KP("E2", kem).pk]}
+      [] k = "pks"   -> IF p.mode \in AuthModes THEN {[m EXCEPT !.pkS = KP("S2", kem).pk]} ELSE {}
+      \* bytes moved between info and psk_id, concatenation unchanged
+      [] k = "shift" -> IF p.mode \in PskModes
+                        THEN {x \in {[m EXCEPT !.info = v, !.pskId = w] : v \in InfoVals, w \in PskIdVals \ {<<>>}} :
+                                 x.info # m.info /\ Cat(x.info, x.pskId) = Cat(m.info, m.pskId)}
+                        ELSE {}
+      \* byte-level: every single bit of info / psk / psk_id, an appended or prepended zero byte
+      [] k = "infobits"  -> {[m EXCEPT !.info = Flip(p.info, b)] : b \in Bits(p.info)}
+      [] k = "pskbits"   -> IF p.mode \in PskModes THEN {[m EXCEPT !.psk = Flip(p.psk, b)] : b \in Bits(p.psk)} ELSE {}
+      [] k = "pskidbits" -> IF p.mode \in PskModes THEN {[m EXCEPT !.pskId = Flip(p.pskId, b)] : b \in Bits(p.pskId)} ELSE {}
+      [] k = "ext"   -> {[m EXCEPT !.info = Cat(p.info, Lit(<<0>>))], [m EXCEPT !.info = Cat(Lit(<<0>>), p.info)]}
+                        \cup (IF p.mode \in PskModes /\ p.psk # <<>>
+                             THEN {[m EXCEPT !.psk = Cat(p.psk, Lit(<<0>>))], [m EXCEPT !.pskId = Cat(p.pskId, Lit(<<0>>))],
+                                   [m EXCEPT !.psk = Cat(Lit(<<0>>), p.psk)], [m EXCEPT !.pskId = Cat(Lit(<<0>>), p.pskId)]}
+                             ELSE {})
+      \* X25519: small-order encapsulated key / sender identity key handed to the receiver (C10)
+      [] k = "encsmall" -> IF kem = KEM_X25519 THEN {[m EXCEPT !.enc = Lit(e)] : e \in SmallOrderEncodings} ELSE {}
+      [] k = "pkssmall" -> IF kem = KEM_X25519 /\ p.mode \in AuthModes
+                           THEN {[m EXCEPT !.pkS = Lit(e)] : e \in SmallOrderEncodings} ELSE {}
+      \* ... and 32-byte strings that are NOT of small order must be accepted (incl. non-canonical u >= p)
+      [] k = "encother" -> IF kem = KEM_X25519 THEN {[m EXCEPT !.enc = Lit(e)] : e \in OtherEncodings} ELSE {}
 
 \* senders that try to impersonate: other identity pair, public half only, non-authenticated mode
 Impostors(p) ==
@@ -102,8 +125,15 @@ Impostors(p) ==
     \cup (IF p.mode \in PskModes /\ p.psk # <<>>                 \* does not know the PSK
          THEN {[q EXCEPT !.psk = v] : v \in PskVals \ {p.psk, <<>>}} ELSE {})
 
+\* a second sender with the same parameters and the same randomness (determinism; alloc vs detached)
 MC_SetupSMenu(cx) ==
-    IF "s" \notin DOMAIN cx THEN {[c |-> "s", p |-> p] : p \in SenderParams}
+    IF "s" \notin DOMAIN cx
+    THEN {[c |-> "s", p |-> p] : p \in SenderParams}
+         \cup (IF BadPkR THEN {[c |-> "s", p |-> [p EXCEPT !.pkR = Lit(e)]] :
+                                  p \in {q \in SenderParams : q.suite[1] = KEM_X25519},
+                                  e \in SmallOrderEncodings \cup OtherEncodings} ELSE {})
+    ELSE IF Twin /\ "t" \notin DOMAIN cx /\ "r" \notin DOMAIN cx
+         THEN {[c |-> "t", p |-> cx["s"].origin]}
     ELSE IF Impost /\ "i" \notin DOMAIN cx /\ "r" \notin DOMAIN cx
          THEN {[c |-> "i", p |-> p] : p \in Impostors(cx["s"].origin)}
          ELSE {}
@@ -113,7 +143,7 @@ VictimOf(sp, ip) == [Matching(sp) EXCEPT !.enc = GenKeyPair(sp.suite[1], ip.rng)
 
 MC_SetupRMenu(cx) ==
     IF "s" \notin DOMAIN cx \/ "r" \in DOMAIN cx THEN {}
-    ELSE {[c |-> "r", p |-> v] : v \in UNION {Variants(cx["s"].origin)[k] : k \in Perturb}}
+    ELSE {[c |-> "r", p |-> v] : v \in UNION {Variant(cx["s"].origin, k) : k \in Perturb}}
          \cup (IF "i" \in DOMAIN cx THEN {[c |-> "r", p |-> VictimOf(cx["s"].origin, cx["i"].origin)]} ELSE {})
 
 PtOfN(n)  == Leaf("pt" \o ToString(n), <<29, 0, 1, 16, 17>>[(n % 5) + 1])
@@ -121,7 +151,8 @@ AadOfN(n) == Leaf("aad" \o ToString(n), <<7, 0, 16, 1, 20>>[(n % 5) + 1])
 MC_PtMenu(n)  == {PtOfN(n)}
 MC_AadMenu(n) == {AadOfN(n)}
 
-MC_DeliveryMenu(snt) == {[k |-> "msg", s |-> "s", i |-> i, j |-> 0, n |-> 0] : i \in 1..MaxSeals}
+MC_DeliveryMenu(snt) ==
+    UNION {{[k |-> "msg", s |-> c, i |-> i, j |-> 0, n |-> 0] : i \in 1..Len(snt[c])} : c \in DOMAIN snt}
 
 MC_ExportMenu == {<<<<>>, 32>>, <<Leaf("ectx", 11), 32>>, <<Lit(<<0>>), 16>>}
 
